@@ -7,6 +7,7 @@ package varmq
 //   VERIF_EPISODES episodes per family
 //   VERIF_SITES    sites.json written by the rewriter (site id -> name)
 //   VERIF_TRACEDIR when set, the linear event log of every episode is written there
+//   VERIF_SLICES   when set, the per-object slice traces of every episode are appended to this file
 //   VERIF_REPLAY   "family:seed:strategy" — run exactly one episode and dump its log
 
 import (
@@ -65,6 +66,7 @@ type episodeResult struct {
 	Executed   int            `json:"executed"`
 	Sites      int            `json:"sites_hit"`
 	SchedHash  string         `json:"sched_hash"`
+	SliceBlocks int           `json:"slice_blocks"`
 }
 
 type family struct {
@@ -183,6 +185,14 @@ func TestVerifCtl(t *testing.T) {
 	}
 	tracedir := os.Getenv("VERIF_TRACEDIR")
 	wdTrace = tracedir
+	var sw *bufio.Writer
+	if p := os.Getenv("VERIF_SLICES"); p != "" {
+		if sf, err := os.OpenFile(p, os.O_CREATE|os.O_WRONLY|os.O_APPEND, 0o644); err == nil {
+			defer sf.Close()
+			sw = bufio.NewWriterSize(sf, 1<<20)
+			defer sw.Flush()
+		}
+	}
 	skip, _ := strconv.Atoi(os.Getenv("VERIF_SKIP"))
 	startWatchdog()
 	fo, err := os.OpenFile(out, os.O_CREATE|os.O_WRONLY|os.O_APPEND, 0o644)
@@ -203,6 +213,9 @@ func TestVerifCtl(t *testing.T) {
 				wdEpisode.Store(fmt.Sprintf("%s %d %s 0", f.name, sd, parts[2]))
 				res, s, _ := runEpisode(f, sd, parts[2])
 				wdEpisode.Store("")
+				if sw != nil {
+					res.SliceBlocks = writeJobSlices(sw, s, fmt.Sprintf("%s:%d:%s", f.name, sd, parts[2]))
+				}
 				enc.Encode(res)
 				if tracedir != "" {
 					dumpLog(fmt.Sprintf("%s/%s-%d-%s.log", tracedir, f.name, sd, parts[2]), s)
@@ -230,6 +243,9 @@ func TestVerifCtl(t *testing.T) {
 			wdEpisode.Store(fmt.Sprintf("%s %d %s %d", f.name, seed, strategy, idx))
 			res, s, _ := runEpisode(f, seed, strategy)
 			wdEpisode.Store("")
+			if sw != nil && len(s.Panics) == 0 {
+				res.SliceBlocks = writeJobSlices(sw, s, fmt.Sprintf("%s:%d:%s", f.name, seed, strategy))
+			}
 			enc.Encode(res)
 			w.Flush()
 			if tracedir != "" && (len(res.Violations) > 0 || i < 2) {
